@@ -212,3 +212,16 @@ Qed.
 
 Theorem t_essential_sset t : sset (t_essential t).
 Proof. apply set_of_list_sset. Qed.
+
+(* a well-formed table is determined by its inputs and its function *)
+Theorem table_determined a b : wf_table a -> wf_table b -> t_inputs a = t_inputs b ->
+  (forall v, tsem a v = tsem b v) -> a = b.
+Proof.
+  intros Wa Wb Hi Hs. pose proof Wa as [Sa La]. pose proof Wb as [Sb Lb].
+  destruct a as [ia oa], b as [ib ob]. simpl in *. subst ib. f_equal.
+  rewrite <- (tabulate_lookup false (length ia) oa La), <- (tabulate_lookup false (length ia) ob Lb).
+  apply map_ext_in. intros p Hp. apply points_In in Hp.
+  pose proof (tsem_env_of {| t_inputs := ia; t_outputs := oa |} p Wa Hp) as E1.
+  pose proof (tsem_env_of {| t_inputs := ia; t_outputs := ob |} p Wb Hp) as E2.
+  simpl in E1, E2. rewrite <- E1, <- E2. apply Hs.
+Qed.
